@@ -122,3 +122,126 @@ Example C14_hypotheses_example :
   steps_done unitK (hooksig 200 false) (mkcfg 8 2 1 0 true true false) main_prog (st0 (mkcfg 8 2 1 0 true true false) 200 28)
   = steps_done unitK nosig (mkcfg 8 2 1 0 true true false) main_prog (clr unitK (st0 (mkcfg 8 2 1 0 true true false) 200 28)).
 Proof. vm_compute. reflexivity. Qed.
+
+(** * The extended program: set-up, `delete` statements
+
+    [main_setup] (Gen_MainLoop, Model/Setup.v) is the control skeleton of main() from the statement
+    after the installation of the SIGINT handler to "Starting the simulation.": every hook point,
+    every `return`, every try/catch, `Display::abort = true` (HDF5 error path), the initial
+    renormalisation; everything else is an opaque statement or condition of an environment [ev]
+    (arbitrary effect [eff], may throw [thr], arbitrary condition value [cnd]) about which only
+    [frame ev] is assumed: it leaves the flag, the point counter, the trace, the exit status, the
+    file and the step counters alone - what the translator checks syntactically (no reference to
+    Display::abort, no hook point, no return inside).  The translator refuses any other access to
+    the flag.  The point counter starts when the handler is installed; [sig] as before.
+    The `delete wake_field; delete wm; delete fpm;` statements are [Free] calls of [main_prog]. *)
+From Inovesa Require Import Model.Setup Proofs.SetupP Proofs.DriverFreeP Proofs.SetupMainP.
+
+(** the per-run obligations: no condition of the set-up reads the flag, the only driver calls in
+    it are hook points and the initial renormalisation, `Display::abort = true` occurs in an
+    exception handler only; every `return` of the set-up returns EXIT_SUCCESS or EXIT_FAILURE;
+    nothing is freed before the final block and no call of the final block goes through an
+    object after its `delete` *)
+Theorem C14_setup_and_frees_shape :
+  su_ok main_setup = true /\
+  forallb (fun z => (z =? 0) || (z =? 1)) (returns main_setup) = true /\
+  free_checker main_prog = true.
+Proof. exact (conj main_setup_checked (conj main_setup_returns main_free_checked)). Qed.
+Print Assumptions C14_setup_and_frees_shape.
+
+(** whatever the opaque statements do, whichever path is taken and however the set-up is left
+    (normally, by return, by an exception): a flag that is set stays set, and SIGINT at any hook
+    point of the set-up sets it (seeded change C14-B: `Display::abort = (hdf_file == nullptr)`) *)
+Theorem C14_setup_never_clears_flag :
+  forall (K : kern) (sig : Z -> bool) (ev : senv K) (cf : cfg) (s : st K), frame ev ->
+    let s' := rstate (sexec sig ev cf main_setup s) in
+    pc s <= pc s' /\ (abort s = true \/ sig_between sig (pc s) (pc s') -> abort s' = true).
+Proof. exact main_setup_never_clears_flag. Qed.
+Print Assumptions C14_setup_never_clears_flag.
+
+(** without an exception the flag is set after the set-up iff it was set before or a hook point
+    of the set-up was signalled, and the set-up is not left by an exception *)
+Theorem C14_setup_flag_only_by_signal :
+  forall (K : kern) (sig : Z -> bool) (ev : senv K) (cf : cfg) (s : st K), frame ev ->
+    (forall n, thr ev n = false) ->
+    let s' := rstate (sexec sig ev cf main_setup s) in
+    (pc s <= pc s' /\ (abort s' = true <-> abort s = true \/ sig_between sig (pc s) (pc s'))) /\
+    (forall s'', sexec sig ev cf main_setup s <> Thr s'').
+Proof. exact main_setup_flag_only_by_signal. Qed.
+Print Assumptions C14_setup_flag_only_by_signal.
+
+(** signals do not steer the set-up: same way of leaving it, same state up to the flag (so a hook
+    index means the same point in the interrupted and in the undisturbed run); hypothesis: the
+    opaque statements do not read the flag ([flagblind]: their effect commutes with setting it) *)
+Theorem C14_setup_independent_of_signals :
+  forall (K : kern) (sig1 sig2 : Z -> bool) (ev : senv K) (cf : cfg) (s1 s2 : st K),
+    flagblind ev -> clr K s1 = clr K s2 ->
+    same_kind (sexec sig1 ev cf main_setup s1) (sexec sig2 ev cf main_setup s2).
+Proof. exact main_setup_independent_of_signals. Qed.
+Print Assumptions C14_setup_independent_of_signals.
+
+(** SIGINT during the set-up, set-up completed: no simulation step is executed, the prologue and
+    the final block run once, the file is that of an undisturbed zero-step run from the same
+    state, the exit status is success and the last message is "Aborted." *)
+Theorem C14_interrupt_during_setup :
+  forall (K : kern) (sig : Z -> bool) (ev : senv K) (cf : cfg) (s s1 : st K), frame ev ->
+    sexec sig ev cf main_setup s = Norm s1 ->
+    abort s = true \/ sig_between sig (pc s) (pc s1) ->
+    steps_done K sig cf main_prog s1 = 0%nat /\
+    exists a t e z,
+      split_closing (p_post main_prog) = Some (a, t, e, z) /\
+      full_run sig ev cf main_setup main_prog s = Finished (run sig cf main_prog s1) /\
+      file (run sig cf main_prog s1) = file (exec_blk nosig cf a (exec_blk nosig cf (p_pre main_prog) (clr K s1))) /\
+      k (run sig cf main_prog s1) = k (exec_blk nosig cf a (exec_blk nosig cf (p_pre main_prog) (clr K s1))) /\
+      status (run sig cf main_prog s1) = Some 0 /\
+      last (log (run sig cf main_prog s1)) MStatus = MAborted.
+Proof. exact main_interrupt_during_setup. Qed.
+Print Assumptions C14_interrupt_during_setup.
+
+(** the other ways the set-up ends: a `return` gives exit status EXIT_SUCCESS or EXIT_FAILURE with
+    nothing written; completing it leaves the status unset and the (empty) file untouched *)
+Theorem C14_setup_exits :
+  forall (K : kern) (sig : Z -> bool) (ev : senv K) (cf : cfg) (s s1 : st K), frame ev -> status s = None ->
+    (sexec sig ev cf main_setup s = Ret s1 ->
+       (status s1 = Some 0 \/ status s1 = Some 1) /\ file s1 = file s /\ k s1 = k s) /\
+    (sexec sig ev cf main_setup s = Norm s1 -> status s1 = None /\ file s1 = file s /\ k s1 = k s).
+Proof.
+  exact (fun K sig ev cf s s1 F Hs =>
+    conj (main_setup_return K sig ev cf s s1 F Hs) (main_setup_normal K sig ev cf s s1 F Hs)).
+Qed.
+Print Assumptions C14_setup_exits.
+
+(** between the final block and `return`: for every configuration and signal schedule no
+    statement goes through an object after its `delete` (in particular nothing is deleted twice),
+    and only objects the final block deletes are ever freed *)
+Theorem C14_no_use_after_free :
+  forall (K : kern) (sig : Z -> bool) (cf : cfg) (s0 : st K), freed s0 = [] -> uaf s0 = false ->
+    uaf (run sig cf main_prog s0) = false /\
+    (forall o, In o (freed (run sig cf main_prog s0)) -> In o (frees (p_post main_prog))).
+Proof. exact main_no_use_after_free. Qed.
+Print Assumptions C14_no_use_after_free.
+
+(** non-vacuity on the executable instance (set-up included; [norm_env main_setup]: the opaque
+    conditions on the first path that leaves the set-up normally - default start distribution,
+    Fokker-Planck term on, HDF5 output): SIGINT at the 6th hook point of the set-up: the program
+    reaches the end of main (kind 0), 0 steps, "Aborted.", status 0; without a signal 8 steps and
+    "Finished."; all three objects are freed *)
+Example C14_setup_interrupt_example :
+  let c := mkcfg 8 2 1 0 true true false in
+  let '(kd, o) := model_run_full c 5 false (norm_env main_setup) [] in
+  let '(kd', o') := model_run_full c (-1) false (norm_env main_setup) [] in
+  (kd, o_k o, o_status o, last (o_log o) MStatus, kd', o_k o', last (o_log o') MStatus) =
+  (0, 0, Some 0, MAborted, 0, 8, MFinished) /\
+  (forallb (fun x => existsb (obj_eqb x) (frees (p_post main_prog))) [OWakeField; OWm; OFpm] &&
+   (length (frees (p_post main_prog)) =? 3)%nat) = true.
+Proof. vm_compute. split; reflexivity. Qed.
+(** ... and the HDF5 error path (the first opaque statement of the `try` whose handler sets the
+    flag throws): the flag is set by the handler *)
+Example C14_setup_error_path_example :
+  match abort_try_opq main_setup with
+  | Some n =>
+      let '(kd, o) := model_run_full (mkcfg 8 2 1 0 false true false) (-1) false (norm_env main_setup) [n] in
+      (kd, o_k o, o_abort o, last (o_log o) MStatus) = (0, 0, true, MAborted)
+  | None => False
+  end.
+Proof. vm_compute. reflexivity. Qed.
